@@ -4,7 +4,10 @@ import json, os, shutil, subprocess, sys
 src, name = sys.argv[1], sys.argv[2]
 prop = name.split('-')[0]
 res = open('/tmp/confirm/%s.result' % name).read()
-ok = 'SUITE_WITH_CHANGE rc=0 failed_tests=0' in res and 'DEMO_WITH_CHANGE rc=101' in res and 'DEMO_WITHOUT_CHANGE rc=0' in res
+import re
+mode = (re.search(r'DEMO_WITH_CHANGE\((\w+)\)', res) or [None, 'debug'])[1]
+ok = ('SUITE_WITH_CHANGE rc=0 failed_tests=0' in res and re.search(r'DEMO_WITH_CHANGE(\(\w+\))? rc=(101|1)\b', res) is not None
+      and re.search(r'DEMO_WITHOUT_CHANGE(\(\w+\))? rc=0\b', res) is not None)
 if not ok:
     print('NOT CONFIRMED', name, res); sys.exit(1)
 dst = '/verif/seeded/%s' % name
@@ -21,7 +24,7 @@ meta = {
     "confirmed": {
         "by": "tools/confirm_mutant.sh in a scratch worktree of /repo at %s" % head,
         "suite_with_change": "cargo test --workspace --no-fail-fast --offline: all tests pass",
-        "demo_with_change": "cargo test --offline --test demo_mut: FAILS",
+        "demo_with_change": {"debug": "cargo test --offline --test demo_mut: FAILS", "release": "cargo test --offline --release --test demo_mut: FAILS (the plain debug run passes: the change is masked by debug assertions)", "miri": "cargo +nightly miri test --offline --test demo_mut: Miri reports Undefined Behavior (the native run passes: every returned value is still correct)"}[mode],
         "demo_without_change": "cargo test --offline --test demo_mut: passes",
     },
     "detection": {},
